@@ -273,9 +273,10 @@ func (pc *ProviderCache) Refresh(ctx context.Context) error {
 	}()
 	verifPoint("refresh.locked")
 
-	pc.seq++
-	seq := pc.seq
-
+	// Fetch from all sources before changing any cache state, so that a
+	// refresh that is canceled part-way does not leave behind updates that
+	// are recorded as done but were never published to readers.
+	fetched := make([][]*model.ProviderInfo, 0, len(pc.sources))
 	for _, src := range pc.sources {
 		// Get provider info from each source.
 		fetchedInfos, err := src.FetchAll(ctx)
@@ -286,7 +287,13 @@ func (pc *ProviderCache) Refresh(ctx context.Context) error {
 			}
 			continue
 		}
+		fetched = append(fetched, fetchedInfos)
+	}
 
+	pc.seq++
+	seq := pc.seq
+
+	for _, fetchedInfos := range fetched {
 		// Collect latest info on each provider.
 		for _, fetchedInfo := range fetchedInfos {
 			pid := fetchedInfo.AddrInfo.ID
